@@ -49,6 +49,12 @@ def matchSegs : List String → List String → Option (List (String × String))
 def digitsVal (cs : List Char) : Option Nat :=
   if cs.isEmpty || !cs.all Char.isDigit then none else some (cs.foldl (fun a c => a * 10 + (c.toNat - 48)) 0)
 
+/-- an optional sign: (negative?, the rest) -/
+def splitSign : List Char → Bool × List Char
+  | '-' :: r => (true, r)
+  | '+' :: r => (false, r)
+  | r => (false, r)
+
 /-- strconv.ParseInt / ParseUint, base 10, with the bit size the templates pass -/
 def parseIntegral (ty : String) (raw : String) : Option String :=
   let w := intWidth ty
@@ -58,12 +64,9 @@ def parseIntegral (ty : String) (raw : String) : Option String :=
     | '+' :: _ => none                     -- ParseUint accepts no sign
     | cs => (digitsVal cs).bind fun n => if n < 2 ^ w then some (toString n) else none
   else
-    let (neg, cs) := match raw.toList with
-      | '-' :: r => (true, r)
-      | '+' :: r => (false, r)
-      | r => (false, r)
-    (digitsVal cs).bind fun n =>
-      if neg then (if n ≤ 2 ^ (w - 1) then some (if n = 0 then "0" else "-" ++ toString n) else none)
+    let sp := splitSign raw.toList
+    (digitsVal sp.2).bind fun n =>
+      if sp.1 then (if n ≤ 2 ^ (w - 1) then some (if n = 0 then "0" else "-" ++ toString n) else none)
       else if n < 2 ^ (w - 1) then some (toString n) else none
 
 def parseBoolText (raw : String) : Option String :=
